@@ -683,6 +683,9 @@ pub struct Trace {
     pub storage_after: StorageDump,
     pub storage_log: Vec<StorageEvent>,
     pub tx_id: Bytes32,
+    /// the storage object after the run (uncommitted `MemoryStorage`, exactly as the VM left it):
+    /// `world.storage = trace.storage_final.clone()` chains the next transaction on it
+    pub storage_final: MemoryStorage,
 }
 
 #[derive(Clone, Debug)]
@@ -929,6 +932,32 @@ pub fn trace(w: &World, tx: &TxSpec, opts: &TraceOpts) -> Result<Trace, String> 
 }
 
 pub fn trace_ready(w: &World, ready: Ready<Script>, gas_limit: u64, opts: &TraceOpts) -> Result<Trace, String> {
+    trace_ready_hooked(w, ready, gas_limit, opts, |_, _| (), |_, _, _| ()).map(|(t, _)| t)
+}
+
+/// What a `pre` hook sees: the instruction about to be executed.
+#[derive(Clone, Debug)]
+pub struct StepHeader {
+    pub index: usize,
+    pub pc: u64,
+    pub raw: u32,
+    pub regs_before: [u64; VM_REGISTER_COUNT],
+}
+
+/// `trace` with observation hooks: `pre(&vm, &header)` runs right before each instruction
+/// (peek `vm.memory()` through pointer registers, `vm.as_ref()` = the recording storage, ...),
+/// `post(&vm, &step, p)` right after it with the finished `Step` and `pre`'s value.  Returns
+/// the trace and `(step index, post value)` for every executed instruction (synthetic
+/// `FetchFault` steps have no entry).  The hooks get `&Vm`: they cannot disturb the run.
+pub fn trace_hooked<P, Q>(w: &World, tx: &TxSpec, opts: &TraceOpts,
+                          pre: impl FnMut(&Vm, &StepHeader) -> P, post: impl FnMut(&Vm, &Step, P) -> Q) -> Result<(Trace, Vec<(usize, Q)>), String> {
+    let ready = tx.build(w)?;
+    trace_ready_hooked(w, ready, tx.gas_limit, opts, pre, post)
+}
+
+pub fn trace_ready_hooked<P, Q>(w: &World, ready: Ready<Script>, gas_limit: u64, opts: &TraceOpts,
+                                mut pre: impl FnMut(&Vm, &StepHeader) -> P, mut post: impl FnMut(&Vm, &Step, P) -> Q) -> Result<(Trace, Vec<(usize, Q)>), String> {
+    let mut hooked: Vec<(usize, Q)> = vec![];
     let mut rec = RecStorage::new(w.storage.clone());
     rec.enabled = opts.storage;
     let storage_before = dump_storage(&w.storage, w, &[]);
@@ -957,6 +986,7 @@ pub fn trace_ready(w: &World, ready: Ready<Script>, gas_limit: u64, opts: &Trace
         let ctx_before = ctx_of(vm.memory(), fp);
         let mark = vm.as_ref().mark();
         let stack_len_before = vm.memory().stack_raw().len() as u64;
+        let pre_val = pre(&vm, &StepHeader { index: steps.len(), pc, raw, regs_before });
         let res = vm.resume().map_err(|e| format!("{e:?}"));
         let regs_after = regs_of(&vm);
         let new_receipts: Vec<Receipt> = vm.receipts()[receipts_seen.min(vm.receipts().len())..].to_vec();
@@ -1004,6 +1034,7 @@ pub fn trace_ready(w: &World, ready: Ready<Script>, gas_limit: u64, opts: &Trace
             ctx_before, ctx_after: ctx_after.clone(), frames_before, frames_after: frames_after.clone(), outcome, storage,
             stack_len_before, stack_len_after,
         });
+        hooked.push((idx, post(&vm, &steps[idx], pre_val)));
         if let Some((reason, pinstr, ppc)) = fetch_fault {
             let (instr, opcode, mnemonic, reg_args, imm) = decode_fields(pinstr);
             steps.push(Step {
@@ -1028,8 +1059,9 @@ pub fn trace_ready(w: &World, ready: Ready<Script>, gas_limit: u64, opts: &Trace
     let regs_final = regs_of(&vm);
     let storage_log = vm.as_ref().since(0);
     let storage_after = dump_storage(&vm.as_ref().inner, w, &storage_log);
-    Ok(Trace { steps, final_state, receipts, outputs, regs_initial, regs_final, gas_limit, gas_used, script_result,
-               storage_before, storage_after, storage_log, tx_id })
+    let storage_final = vm.as_ref().inner.clone();
+    Ok((Trace { steps, final_state, receipts, outputs, regs_initial, regs_final, gas_limit, gas_used, script_result,
+               storage_before, storage_after, storage_log, tx_id, storage_final }, hooked))
 }
 
 /// The same transaction through a plain `transact` (no debugger, plain `MemoryStorage`).
